@@ -28,7 +28,7 @@ META = {
     'quotas': {
         'quick': {'model-exports-checked': 200, 'db-nodes-checked': 800, 'db-relationships-checked': 1000, 'imports-compared': 200,
                   'attackgraph-exports-checked': 90, 'ag-relationships-checked': 2000, 'class:self-link': 50,
-                  'class:pair-linked-by-two-associations': 30, 'class:many-to-many': 6, 'class:dup-named-assoc-subtype-link': 10},
+                  'class:pair-linked-by-two-associations': 30, 'class:many-to-many': 6, 'class:dup-named-assoc-subtype-link': 10, 'class:attack-graph-with-id-gap': 40},
         'thorough': {'model-exports-checked': 30000, 'imports-compared': 20000, 'attackgraph-exports-checked': 10000},
     },
 }
@@ -199,6 +199,10 @@ def _check_case(case, res, count=True):
                 g = built.attack_graph()
             except TooExpensive:
                 return None
+            if case.get('remove_node') is not None and len(g.nodes) > 2:
+                g.remove_node(g.nodes[case['remove_node'] % (len(g.nodes) - 1)])      # ids are no longer 0..n-1
+                if count:
+                    res.count('class:attack-graph-with-id-gap')
             store2 = fakeneo.Store()
             neo.Graph = fakeneo.make_graph_class(store2)
             names = [n.full_name for n in g.nodes]
@@ -232,6 +236,7 @@ def run(rng, res, tier, shard, nshards):
         case = gen_case(rng, Cfg(max_assets=6, max_assocs=6, max_depth=1, dup_assoc_names=0.5, inherit_bias=0.75, shared_field_names=0.35),
                         MCfg(max_assets=7, attackers=0.0, hostile_names=0.1, explicit_ids=0.4, self_links=0.2), corelang_share=0.08)
         case['with_graph'] = rng.random() < 0.35
+        case['remove_node'] = rng.randrange(1000) if rng.random() < 0.5 else None
         f = check_case(case, res)
         am = case['amodel']
         res.case(digest([case['spec'], am]) if len(am['assets']) >= 2 and am['links'] else None)
